@@ -2,13 +2,14 @@
 # usage: tools/seedsuite.sh <patch.diff|-> <log>
 # Runs gnet's own test suite on a scratch worktree of /repo HEAD with the patch applied ("-" = clean
 # tree), inside a private network namespace so that parallel runs do not fight over fixed ports.
-# In a netns TestServeMulticast ("no such device") and TestBindToDevice fail on the clean tree as
-# well; they are reported separately. Scratch worktree removed afterwards.
+# The namespace gets lo and a veth pair named eth0 with a default route: with lo alone
+# TestServeMulticast fails and TestBindToDevice panics in its own OnTick (and takes the rest of the
+# package with it) on the clean tree as well. Scratch worktree removed afterwards.
 P=$1; LOG=$(realpath -m "$2")
 export GOFLAGS=-mod=mod GOPROXY=off GOSUMDB=off
 WT=$(mktemp -d /tmp/wt-suite-XXXXXX)
 git -C /repo worktree add -q --detach "$WT" HEAD || exit 2
 if [ "$P" != "-" ]; then git -C "$WT" apply "$(realpath "$P")" || { git -C /repo worktree remove --force "$WT"; exit 2; }; fi
-(cd "$WT" && SEEDTAGS="$SEEDTAGS" unshare -n -- sh -c 'ip link set lo up; go test $SEEDTAGS -vet=off -count=1 -timeout 25m ./... 2>&1') | grep -v '^\[gnet\]' > "$LOG"
+(cd "$WT" && SEEDTAGS="$SEEDTAGS" unshare -n -- sh -c 'ip link set lo up; ip link add eth0 type veth peer name vpeer; ip addr add 10.77.0.1/24 brd + dev eth0; ip addr add 10.77.0.2/24 brd + dev vpeer; ip link set eth0 up; ip link set vpeer up; ip route add default via 10.77.0.2 dev eth0; sleep 3; go test $SEEDTAGS -vet=off -count=1 -timeout 25m ./... 2>&1') | grep -v '^\[gnet\]' > "$LOG"
 git -C /repo worktree remove --force "$WT"
 echo "$P: $(grep -c '^ok' "$LOG") packages ok; failing tests: $(grep -- '^--- FAIL' "$LOG" | sort -u | tr '\n' ' ')"
